@@ -409,14 +409,12 @@ class EquationSolver(object):
             Logger('Had evaluation errors')
             raise ValueError(last_error)
         Logger('Number of iterations: {0}'.format(num_tries), priority=3)
-        # Then: append values to the time series
-        varlist = [x[0] for x in self.Parser.Endogenous] + [x[0] for x in self.Parser.Lagged]
-        for var in varlist:
-            assert (len(self.TimeSeries[var]) == step)
-            self.TimeSeries[var].append(initial[var])
-        # Finally: augment with decorative variables
+        # Augment with decorative variables
         # This is complicated as decorative variables may depend upon other decorative variables
-        # Create a holding variable that lists the equations, and keep iterating through the list
+        # Create a holding variable that lists the equations, and keep iterating through the list.
+        # All values are computed before anything is appended to the time series, so that a
+        # failure leaves the previously solved periods intact (and all series of equal length).
+        decoration_values = []
         vars_to_compute = []
         for var, eqn in self.Parser.Decoration:
             vars_to_compute.append((var, eqn))
@@ -426,10 +424,14 @@ class EquationSolver(object):
                 assert (len(self.TimeSeries[var]) == step)
                 try:
                     val = eval(eqn, globals(), initial)
-                    initial[var] = val
-                    self.TimeSeries[var].append(val)
                 except NameError:
                     failed.append((var, eqn))
+                    continue
+                except (ZeroDivisionError, OverflowError, ValueError) as er:
+                    # Cannot step over an error here: there is no further iteration.
+                    raise ValueError('Error evaluating variable {0}. Error message: {1}'.format(var, str(er)))
+                initial[var] = val
+                decoration_values.append((var, val))
             # If we failed on every single decoration variable, something is wrong.
             if len(failed) == len(vars_to_compute):
                 # NOTE: We should not get here; it means that the decoration variables are
@@ -441,6 +443,13 @@ class EquationSolver(object):
                     Logger(out)
                 raise ValueError('Cannot solve decoration equations!\n'+out)
             vars_to_compute = failed
+        # Then: append values to the time series
+        varlist = [x[0] for x in self.Parser.Endogenous] + [x[0] for x in self.Parser.Lagged]
+        for var in varlist:
+            assert (len(self.TimeSeries[var]) == step)
+            self.TimeSeries[var].append(initial[var])
+        for var, val in decoration_values:
+            self.TimeSeries[var].append(val)
 
     def SolveEquation(self):
         if len(self.VariableList) == 0:
